@@ -200,6 +200,12 @@ func (s *Syncer[H]) tailHeight(ctx context.Context, oldTail, head H) (uint64, er
 // estimateTailHeight estimates the tail header based on the current head.
 // It respects the trusting period, ensuring Syncer never initializes off an expired header.
 func (s *Syncer[H]) estimateTailHeight(head H) uint64 {
+	if s.Params.blockTime <= 0 {
+		// block time is unknown, so the amount of headers to retain cannot be estimated,
+		// thus keep all headers starting from genesis
+		return 1
+	}
+
 	headersToRetain := uint64(s.Params.trustingPeriod / s.Params.blockTime) //nolint:gosec
 	if headersToRetain >= head.Height() {
 		// means chain is very young so we can keep all headers starting from genesis
@@ -221,6 +227,10 @@ func (s *Syncer[H]) findTailHeight(ctx context.Context, oldTail, head H) (uint64
 	switch {
 	case tailTimeDiff <= 0:
 		// current tail is relevant as is
+		return oldTail.Height(), nil
+	case s.Params.blockTime <= 0:
+		// block time is unknown, so there is nothing to estimate the new tail with,
+		// thus stick to the current tail
 		return oldTail.Height(), nil
 	case tailTimeDiff >= window:
 		// current and expected tails are far from each other
